@@ -285,6 +285,21 @@ func (w *World) argFrom(id string, opts *RunOpts, ex *Extra) {
 						if c2, isCall := av.(*ssa.Call); isCall && strings.Contains(calleeName(c2), p[1]) {
 							okFlow = true
 						}
+					case strings.HasPrefix(src, "range:param:"):
+						// the argument is the element variable of a `for _, x := range <param>` loop
+						// over the parameter itself (every element, in order)
+						if ld, isLd := av.(*ssa.UnOp); isLd && ld.Op == token.MUL {
+							if ia, isIA := ld.X.(*ssa.IndexAddr); isIA {
+								if pv, isP := ia.X.(*ssa.Parameter); isP {
+									what = "an element of parameter " + pv.Name()
+									if bo, isB := ia.Index.(*ssa.BinOp); isB && bo.Op == token.ADD {
+										if ph, isPhi := bo.X.(*ssa.Phi); isPhi && ph.Comment == "rangeindex" {
+											okFlow = pv.Name() == strings.TrimPrefix(src, "range:param:")
+										}
+									}
+								}
+							}
+						}
 					case strings.HasPrefix(src, "param:"):
 						if pv, isP := av.(*ssa.Parameter); isP {
 							what = "parameter " + pv.Name()
